@@ -55,7 +55,12 @@ ASSUMPTIONS = [
     "agreement of the NSEC3 RDATA text with the hash",
     "textual arguments of nsec3_hash are ASCII in the model (str.upper of non-ASCII letters, IDNA are outside it)",
     "recorded findings still in the tree: Chaosnet A lower-cased; unimplemented RFC 4034 §6.2 types opaque; NSEC bitmap "
-    "of a delegation point announces non-authoritative types (model parameter NsecConsts.cutTypes)",
+    "of a delegation point announces non-authoritative types (model parameter NsecConsts.cutTypes); "
+    "dnskey_rdataset_to_cdnskey_rdataset yields DNSKEY-typed records; make_ds_rdataset yields a CDS-typed rdataset for "
+    "DNSKEY input",
+    "argument spellings of make_ds and the DS/CDS/CDNSKEY rdataset helpers, verify_digest() from the zone's own ZONEMD "
+    "RRset, sign_zone's txn= / add_dnskey / nsec3= routes, NSEC TTL and class are checked by the reference oracle only "
+    "(no model)",
 ]
 
 NS, DS, RRSIG, NSEC, SOA, ZONEMD, DNSKEY = 2, 43, 46, 47, 6, 63, 48
@@ -1038,7 +1043,7 @@ def eval_zonemd(ctx, c, rep):
         pass
     # verify_digest() without argument reads the apex ZONEMD RRset: any one matching record suffices, records with an
     # unsupported scheme / hash algorithm are skipped, no ZONEMD RRset at all is NoDigest (RFC 8976 §4)
-    wrong = ZMD(z.rdclass, ZONEMD, soa.serial, 1, alg, bytes([want[-1] ^ 0x80]) + want[1:])
+    wrong = ZMD(z.rdclass, ZONEMD, soa.serial, 1, alg, bytes([want[0] ^ 0x80]) + want[1:])
     unsup = [ZMD(z.rdclass, ZONEMD, soa.serial, 1, 7, b"\x01" * 12), ZMD(z.rdclass, ZONEMD, soa.serial, 9, alg, want)]
     plans = {"good": ([good], "ok"), "unsup+good": (unsup + [good], "ok"), "wrong+good": ([wrong, good], "ok"),
              "wrong": ([wrong], "DigestVerificationFailure"), "unsup": (unsup, "DigestVerificationFailure"),
